@@ -24,7 +24,7 @@ def obs_of(t):
     from fggs.indices import PatternedTensor
     if isinstance(t, PatternedTensor):
         t = t.to_dense()
-    return {'shape': [int(x) for x in t.shape], 'flat': PT.enc_tensor(t)}
+    return {'shape': [int(x) for x in t.shape], 'flat': PT.enc_tensor(t), 'dt': str(t.dtype).replace('torch.', '')}
 
 
 def case_dense(struct, layout, dtype):
@@ -45,7 +45,7 @@ def op_case(name, fn_pt, fn_dense, operands, *, mayraise=False, extra=None):
     import torch
     from fggs.indices import PatternedTensor
     c = {'kind': 'op', 'op': name, 'out': 'ok', 'mayraise': mayraise, 'hasst': False, 'rb': PT.encode_struct({'ps': [], 'vs': [], 'd': 0, 'ph': [0]}),
-         'obs': {'shape': [], 'flat': []}, 'exp': {'shape': [], 'flat': []}, 'tag': ['op', name] + (extra or [])}
+         'obs': {'shape': [], 'flat': [], 'dt': ''}, 'exp': {'shape': [], 'flat': [], 'dt': ''}, 'tag': ['op', name] + (extra or [])}
     try:
         with warnings.catch_warnings(record=True) as wl:
             warnings.simplefilter('always')
@@ -62,6 +62,9 @@ def op_case(name, fn_pt, fn_dense, operands, *, mayraise=False, extra=None):
             c['rb'] = PT.readback(res)
         c['obs'] = obs_of(res if not isinstance(res, (list, tuple, bool, int, float)) else torch.as_tensor(res))
         c['exp'] = obs_of(exp if not isinstance(exp, (list, tuple, bool, int, float)) else torch.as_tensor(exp))
+        if isinstance(res, (list, tuple, bool, int, float)) or name in ('tolist', 'iter'):
+            c['obs']['dt'] = c['exp']['dt'] = 'py'
+        c['_res'] = res if isinstance(res, PatternedTensor) else None
     except MachineryFailure:
         raise
     except Exception as e:  # noqa
@@ -322,6 +325,51 @@ def drive_shape(args):
                 if c:
                     cases.append(c)
             cases.extend(reshape_cases(p, p.to_dense(), rng))
+        # project(paxes, vaxes): onto fresh random target patterns and onto patterns derived from the tensor itself
+        for pi_, p in enumerate(pats):
+            targets = []
+            try:
+                stt = PT.gen_pattern(rng, types, default=0.0, start_id=800 + 10 * pi_, dtype='bool' if boolmode else 'float')
+                targets.append(('fresh', PT.build(stt, dtype)))
+                targets.append(('self', p))
+                if p.ndim >= 2 and len(set(p.shape)) == 1:      # X(a,b) against X(b,a) is an index-type mismatch unless a = b
+                    targets.append(('selfT_flat', None))
+            except Exception:
+                pass
+            for tname, tg in targets:
+                try:
+                    if tname == 'selfT_flat':
+                        src, tg = p.flatten(), p.T.flatten()
+                    else:
+                        src = p
+                    cse = {'kind': 'project', 'src': PT.readback(src, ids := {}), 'target': PT.readback(tg, ids), 'out': 'ok',
+                           'obs': {'shape': [], 'flat': [], 'dt': ''}, 'tag': ['project', tname]}
+                    try:
+                        with warnings.catch_warnings():
+                            warnings.simplefilter('ignore')
+                            r = src.project(tg.paxes, tg.vaxes)
+                        cse['obs'] = obs_of(r)
+                    except Exception as e:  # noqa
+                        cse['out'] = 'raise:' + type(e).__name__
+                    cases.append(cse)
+                except Exception:
+                    pass
+        # short programs: a second operation applied to the RESULT of a first one (patterns made by the library)
+        firsts = [c for c in cases if c.get('_res') is not None][-60:]
+        rng.shuffle(firsts)
+        for c1 in firsts[:12]:
+            r1 = c1['_res']
+            try:
+                ops2 = unary_ops(r1, rng)
+            except Exception:
+                continue
+            rng.shuffle(ops2)
+            for (name, f, g) in ops2[:5]:
+                c2 = op_case(c1['op'] + '>' + name, f, g, [r1])
+                if c2:
+                    c2['tag'] = ['op2', name]
+                    cases.append(c2)
+            cases.extend(reshape_cases(r1, r1.to_dense(), rng)[:6])
         pairs = [(a, b) for a in pats for b in pats][: (nper * nper)]
         for a, b in pairs:
             for (name, f, g) in binary_ops(a):
@@ -351,6 +399,8 @@ def drive_shape(args):
                         if c:
                             cases.append(c)
         cases.extend(drain_hook(seen))
+    for c in cases:
+        c.pop('_res', None)
     return cases
 
 
